@@ -730,6 +730,109 @@ func c16Body(s *simkit.Sim, rc *simkit.RunCtx) {
 			return
 		}
 	}
+	// ---- two subjects register presentations with the same id (a jti is unique per signer only): the client can verify
+	// only one of them, the other must not show up in its search results ----
+	if s.D.Decide("same-jti", 3) == 2 {
+		s.Enable(false)
+		subA, subB := subjects[0], subjects[1]
+		nb := clients["nodeb"]
+		pathOf := func(d string) string { return "/iam/" + d[strings.LastIndex(d, ":")+1:] + "/did.json" }
+		scriptedVP := func(sub struct{ node, subject, did string }) string {
+			code, body := nb.Call("GET", "/internal/vcr/v2/holder/"+sub.subject+"/vc", nil)
+			var wallet []json.RawMessage
+			_ = json.Unmarshal(body, &wallet)
+			if code != 200 || len(wallet) == 0 {
+				return ""
+			}
+			code, regCred := nb.Call("POST", "/internal/vcr/v2/issuer/vc", map[string]interface{}{
+				"@context":                     []string{"https://www.w3.org/2018/credentials/v1", "https://nuts.nl/credentials/v1"},
+				"type":                         "DiscoveryRegistrationCredential",
+				"issuer":                       sub.did,
+				"withStatusList2021Revocation": false,
+				"credentialSubject":            map[string]interface{}{"id": sub.did, "k": "v", "authServerURL": "https://" + sub.node + ".sim/oauth2/" + sub.subject},
+			})
+			if code != 200 {
+				return ""
+			}
+			code, body = nb.Call("POST", "/internal/vcr/v2/holder/vp", map[string]interface{}{"signerDID": sub.did, "format": "jwt_vp", "domain": "sim-svc",
+				"expires": time.Now().Add(30 * time.Minute).UTC().Format(time.RFC3339), "verifiableCredentials": []json.RawMessage{wallet[0], json.RawMessage(regCred)}})
+			if code != 200 {
+				return ""
+			}
+			var raw string
+			if json.Unmarshal(body, &raw) != nil {
+				raw = strings.Trim(string(body), "\"\n")
+			}
+			return raw
+		}
+		register := func(raw string) bool {
+			b, _ := json.Marshal(raw)
+			pr, _ := http.NewRequest("POST", "https://nodea.sim/discovery/sim-svc", strings.NewReader(string(b)))
+			pr.Header.Set("Content-Type", "application/json")
+			resp, err := w.HTTP.RoundTrip(pr)
+			return err == nil && (resp.StatusCode == 201 || resp.StatusCode == 200)
+		}
+		rawA, rawB := scriptedVP(subA), scriptedVP(subB)
+		vpA, errA := parseJWTVP(rawA)
+		if rawA != "" && rawB != "" && errA == nil {
+			rawB2, err := nb.ResignJWT(rawB, func(c map[string]interface{}) { c["jti"] = vpA.ID })
+			// subB's DID document can be fetched only while the server handles the registration; if a client polled the
+			// list in that window (it cannot: no virtual time passes) nothing is judged
+			var inRegister, polledDuring bool
+			prevObserve := w.HTTP.Observe
+			w.HTTP.Observe = func(rec *seams.HTTPRecord) {
+				mu.Lock()
+				if inRegister && rec.Method == "GET" && strings.HasPrefix(rec.Path, "/discovery/") {
+					polledDuring = true
+				}
+				mu.Unlock()
+				if prevObserve != nil {
+					prevObserve(rec)
+				}
+			}
+			w.HTTP.LoseIf = func(req *http.Request) bool {
+				mu.Lock()
+				defer mu.Unlock()
+				return req.Method == "GET" && req.URL.Path == pathOf(subB.did) && !inRegister
+			}
+			mu.Lock()
+			inRegister = true
+			mu.Unlock()
+			okB := err == nil && register(rawB2)
+			mu.Lock()
+			inRegister = false
+			mu.Unlock()
+			if okB {
+				s.Faults.Inc("did-document-unreachable")
+				s.Advance(time.Duration(refresh+5) * time.Second) // nodec fetches subB's entry and cannot verify it
+				if register(rawA) {
+					s.Advance(time.Duration(2*refresh+5) * time.Second) // nodec fetches subA's entry (same id) and verifies it
+					res, err := searchResults(clients["nodec"])
+					mu.Lock()
+					pd := polledDuring
+					mu.Unlock()
+					if err == nil && !pd {
+						seenA := false
+						for _, r := range res {
+							if r.Subject == subB.did {
+								s.Fail("C16.search", "unverified-entry-returned:same-id", "nodec: search returns the entry of %s (presentation id %s), which this client was never able to verify: the signer's DID document has been unreachable since the presentation was registered; another subject's verified presentation has the same id", subB.did, vpA.ID)
+								return
+							}
+							if r.Subject == subA.did {
+								seenA = true
+							}
+						}
+						if seenA {
+							s.Probes.Inc("same-id-presentations-of-two-subjects")
+						}
+					}
+				}
+			}
+			w.HTTP.LoseIf = nil
+			w.HTTP.Observe = prevObserve
+		}
+		s.Enable(true)
+	}
 	// ---- expiry: clients stopped, nothing refreshes; after the validity nothing is returned ----
 	if s.D.Decide("expiry", 2) == 1 {
 		w.Stop("nodec", true)
